@@ -109,7 +109,16 @@ type Op struct {
 	N      int // bytes for writes
 }
 
-func (o Op) String() string { return fmt.Sprintf("c%d#%d %s %s", o.Client, o.Seq, o.Kind, o.Class) }
+func (o Op) String() string {
+	tail := o.Path
+	if i := strings.LastIndexByte(tail, '/'); i >= 0 {
+		tail = tail[i+1:]
+	}
+	if len(tail) > 14 {
+		tail = tail[len(tail)-14:]
+	}
+	return fmt.Sprintf("c%d#%d %s %s(%s)", o.Client, o.Seq, o.Kind, o.Class, tail)
+}
 
 type Verdict int
 
